@@ -37,6 +37,139 @@ func rulesC13(c *Ctx) {
 	ruleC13List(c)
 	ruleC13ListMark(c)
 	ruleProceedTable(c, "C13.PROCEED")
+	ruleC13CheckerImmutable(c)
+	ruleC13EmptyString(c)
+}
+
+// ruleC13CheckerImmutable: a field checker decides which fields an update may write, and the same
+// checker object is shared between the child and the parent persist context: its methods never
+// modify it (no store to its fields, no update of a map or slice it holds).
+func ruleC13CheckerImmutable(c *Ctx) {
+	p := c.P
+	fcI := p.Iface("boltz", "FieldChecker")
+	n := 0
+	for _, fn := range c.prodFuncs("boltz") {
+		if fn.Signature.Recv() == nil || len(fn.Params) == 0 {
+			continue
+		}
+		rt := fn.Signature.Recv().Type()
+		if !types.Implements(rt, fcI) && !types.Implements(types.NewPointer(rt), fcI) {
+			continue
+		}
+		if _, isIface := rt.Underlying().(*types.Interface); isIface {
+			continue
+		}
+		n++
+		c.Analysed(FnName(fn))
+		recv := ssa.Value(fn.Params[0])
+		bad := ""
+		for _, b := range fn.Blocks {
+			for _, in := range b.Instrs {
+				switch x := in.(type) {
+				case *ssa.Store:
+					if _, base := fieldOfAddr(x.Addr); base == recv {
+						bad = "stores into a field of the checker at " + p.Pos(x.Pos())
+					}
+				case *ssa.MapUpdate:
+					if _, base := loadedField(x.Map); base == recv || x.Map == recv {
+						bad = "updates a map held by the checker at " + p.Pos(x.Pos())
+					}
+				}
+			}
+		}
+		c.Check(bad == "", "C13.CHECKER.IMMUTABLE", FnName(fn), p.Pos(fn.Pos()), "does not modify the checker it is called on", bad+": the checker is shared by reference between the child and the parent persist context (and with the caller's map), so one context's overrides leak into the other and a field-restricted update writes fields it must not")
+	}
+	c.Floor("C13.CHECKER.IMMUTABLE", 2)
+}
+
+// ruleC13EmptyString: an empty string is stored as a bare type tag; decoders that dispatch on the tag
+// must not turn "no payload bytes" into nil before the tag has excluded strings.
+func ruleC13EmptyString(c *Ctx) {
+	p := c.P
+	fieldType := p.Named("boltz", "FieldType")
+	strTag := constInt(p.Obj("boltz", "TypeString"))
+	n := 0
+	for _, fn := range c.prodFuncs("boltz") {
+		// functions that compare a FieldType value with the tag constants (tag dispatchers)
+		var tagVal ssa.Value
+		for _, b := range fn.Blocks {
+			for _, in := range b.Instrs {
+				if bo, ok := in.(*ssa.BinOp); ok && bo.Op == token.EQL && namedOf(bo.X.Type()) == fieldType {
+					if _, isK := bo.Y.(*ssa.Const); isK {
+						tagVal = bo.X
+					}
+				}
+			}
+		}
+		if tagVal == nil {
+			continue
+		}
+		fi := factsOf(fn)
+		for _, b := range fn.Blocks {
+			for _, in := range b.Instrs {
+				bo, ok := in.(*ssa.BinOp)
+				if !ok || (bo.Op != token.EQL && bo.Op != token.NEQ) {
+					continue
+				}
+				// len(payload) == 0
+				lc, isLen := bo.X.(*ssa.Call)
+				k, isK := bo.Y.(*ssa.Const)
+				if !isLen || !isK || k.Value == nil || k.Value.ExactString() != "0" {
+					continue
+				}
+				bi, isBi := lc.Call.Value.(*ssa.Builtin)
+				if !isBi || bi.Name() != "len" {
+					continue
+				}
+				if sl, isSl := lc.Call.Args[0].Type().Underlying().(*types.Slice); !isSl || !isByte(sl.Elem()) {
+					continue
+				}
+				for _, r := range *bo.Referrers() {
+					iff, isIf := r.(*ssa.If)
+					if !isIf {
+						continue
+					}
+					empty := iff.Block().Succs[0]
+					if bo.Op == token.NEQ {
+						empty = iff.Block().Succs[1]
+					}
+					// does the tag still admit TypeString where the emptiness is tested?
+					excluded := fi.HoldsWhere(iff.Block(), func(f Fact) bool {
+						fb, isB := f.V.(*ssa.BinOp)
+						if !isB || f.Kind != "true" || fb.X != tagVal {
+							return false
+						}
+						fk, isFK := fb.Y.(*ssa.Const)
+						if !isFK || fk.Value == nil {
+							return false
+						}
+						kv, _ := constant.Int64Val(fk.Value)
+						return (fb.Op == token.EQL && f.Pol && kv != strTag) || (fb.Op == token.NEQ && f.Pol && kv == strTag) || (fb.Op == token.EQL && !f.Pol && kv == strTag)
+					})
+					if excluded {
+						continue
+					}
+					// on the empty side: is a nil result returned?
+					ps := &pathSearch{fn: fn, fi: fi, start: empty, startKnow: stepKnow(fi, iff.Block(), empty, knowMap{})}
+					ps.atReturn = func(ret *ssa.Return, kk knowMap) bool {
+						return len(ret.Results) > 0 && isNilConst(ret.Results[0])
+					}
+					n++
+					found := ps.run()
+					c.Check(!found, "C13.EMPTYSTR", FnName(fn)+": empty payload", p.Pos(bo.Pos()), "an empty payload is not turned into nil while the tag may still be TypeString", "a value with no payload bytes is decoded as nil before the type tag has excluded strings: the empty string (stored as a bare tag) reads back as nil inside maps and lists")
+				}
+			}
+		}
+	}
+	c.Note(fmt.Sprintf("C13.EMPTYSTR: %d payload-emptiness tests in tag-dispatching decoders", n))
+}
+
+func isByte(t types.Type) bool {
+	b, ok := t.Underlying().(*types.Basic)
+	return ok && (b.Kind() == types.Byte || b.Kind() == types.Uint8)
+}
+
+func unusedC13() {
 }
 
 // ruleC13ListMark: PutList always writes the size marker (also for an empty list) and the reader
@@ -773,6 +906,53 @@ func ruleC13Codec(c *Ctx) {
 			}
 		}
 		c.Check(okBuf, "C13.CODEC", "boltz.EncodeByteSlice: prefix room", p.Pos(enc.Pos()), fmt.Sprintf("the buffer reserves at least %d byte(s) for the uvarint length prefix", need), whyBuf)
+	}
+	// every PutUvarint in the package writes into a buffer whose room for the prefix is evident
+	{
+		need := int64(1)
+		for v := maxK; v >= 0x80; v >>= 7 {
+			need++
+		}
+		for _, fn := range c.prodFuncs("boltz") {
+			for _, call := range callsIn(fn) {
+				cal, _ := calleeOf(call.Common())
+				if cal == nil || cal.Pkg() == nil || cal.Pkg().Path() != "encoding/binary" || cal.Name() != "PutUvarint" {
+					continue
+				}
+				dst := call.Common().Args[0]
+				for i := 0; i < 4; i++ {
+					if sl, isSl := dst.(*ssa.Slice); isSl {
+						dst = sl.X
+					}
+				}
+				construct := FnName(fn) + ": PutUvarint destination"
+				ms, isMS := dst.(*ssa.MakeSlice)
+				if !isMS {
+					c.Undecided("C13.CODEC", construct, p.Pos(call.Pos()), "the destination of the length prefix is not a buffer made in this function: its room for the prefix cannot be established")
+					continue
+				}
+				okRoom := false
+				if k, isK := ms.Len.(*ssa.Const); isK && k.Value != nil {
+					if n, _ := constant.Int64Val(k.Value); n >= 10 {
+						okRoom = true
+					}
+				}
+				if bo, isB := ms.Len.(*ssa.BinOp); isB && bo.Op == token.ADD {
+					for _, v := range []ssa.Value{bo.X, bo.Y} {
+						if k, isK := v.(*ssa.Const); isK && k.Value != nil {
+							if n, _ := constant.Int64Val(k.Value); n >= need {
+								okRoom = true
+							}
+						}
+					}
+				}
+				if okRoom {
+					c.OK("C13.CODEC", construct, p.Pos(call.Pos()), "written into a buffer that reserves a constant number of bytes sufficient for the longest prefix")
+				} else {
+					c.Undecided("C13.CODEC", construct, p.Pos(call.Pos()), "the buffer size is computed by hand ("+describeValue(ms.Len)+"): that it leaves room for the uvarint prefix of every admissible length (1 byte below 128, 2 bytes from 128 on) is an arithmetic fact this checker does not decide")
+				}
+			}
+		}
 	}
 	c.Check(hasCall(enc, "encoding/binary", "PutUvarint") && hasCall(dec, "encoding/binary", "Uvarint"), "C13.CODEC", "boltz compound key: varint pair", p.Pos(enc.Pos()), "encoder writes the length with PutUvarint, decoder reads it with Uvarint", "length prefix encoder/decoder primitives do not match")
 	c.Check(boundUsed(enc) && boundUsed(dec), "C13.CODEC", "boltz compound key: shared bound", p.Pos(dec.Pos()), "both sides compare against MaxLinkedSetKeySize", "encoder and decoder do not enforce the same MaxLinkedSetKeySize bound")
